@@ -300,7 +300,7 @@ def any_substring_in(it, subs, line):
         return False
     from pyvc.ops import contains
     subs = it.lift_list(subs)
-    j = it.bound_var('sub')
+    j = z3.Int('sub!any')        # one name for the bound variable: equal statements are then the same term
     c = contains(it, line, subs.get(j))
     return SBool(z3.Exists([j], z3.And(j >= 0, j < subs.n, zbool(truth(it, c)))))
 
@@ -413,4 +413,332 @@ _wn = _WrongNumber(
                               'first_error_line': T.union(T.none, T.str), 'actual_line': 'unbound',
                               'expected_line': 'unbound'})},
     ensures=[('different-line-counts-are-a-failure', 'result[1] > 0')])
+# at call sites the result is a pair (message or None, count)
+_wn.effects = lambda it, env: (it.fresh(T.opt(T.str), 'wrong_number.first_error'), it.fresh(T.int, 'wrong_number.ndiffs'))
 REGISTRY[_wn.ident] = _wn
+
+
+# ---------------------------------------------------------------------------
+# wrong_content (C04): same number of lines on both sides.
+#  #count : any number of differing line numbers over any two texts -- the returned count is the number of
+#           differing pairs that can_ignore does not excuse (loop invariant over a partial count).
+#  #cases : up to 3 differing line numbers -- failure_cases receives the first max_permutation_cases unexcused
+#           (line, actual, expected) triples, in order, and the ignored sets receive the excused line numbers.
+# ---------------------------------------------------------------------------
+
+def _excused_z(it, a, e, subs):
+    """can_ignore's verified postcondition, as a formula over one pair of lines."""
+    c = any_substring_in.fn(it, subs, e)
+    cz = c.z if isinstance(c, SBool) else z3.BoolVal(bool(c))
+    return z3.Or(cz, _patterns_equiv(strz(it, a), strz(it, e)))
+
+
+_EXCUSED_AT = z3.Function('excused_differing_pair', z3.IntSort(), z3.BoolSort())
+
+
+@specfn
+def n_excused(it, diffs, actual, expected, subs, upto):
+    """
+    How many of the first `upto` differing line numbers are excused.  excused_differing_pair(k) abbreviates
+    can_ignore's postcondition for the k-th differing pair (a definition, stated once per path), so the
+    partial count is over one canonical term.
+    """
+    from pyvc.builtins import sum_symbolic
+    diffs, actual, expected = it.lift_list(diffs), it.lift_list(actual), it.lift_list(expected)
+    if not it.path.__dict__.get('excused_defined'):
+        it.path.__dict__['excused_defined'] = True
+        k = z3.Int('pair!k')
+        i = diffs.get(k)
+        iz = i.z if isinstance(i, SInt) else z3.IntVal(int(i))
+        it.path.assume(z3.ForAll([k], _EXCUSED_AT(k) == _excused_z(it, actual.get(iz), expected.get(iz), subs)))
+    n = upto.z if isinstance(upto, SInt) else z3.IntVal(int(upto))
+    return sum_symbolic(it, SList(n, lambda k: SInt(z3.If(_EXCUSED_AT(k), 1, 0)), T.int, 'list'))
+
+
+def _wc_entry(it, senv):
+    _wn_entry(it, senv)
+    it.sum_axioms = True
+    fc = SObj('list', {'__open__': False}, label='failure_cases')
+    fc.methods['append'] = Builtin(lambda it2, self, x: None, 'list.append')
+    fc.attrs['__len__'] = it.fresh(T.nat, 'len(failure_cases)')
+    senv['failure_cases'] = fc
+
+
+def _with_compile_patterns(reg):
+    reg[CF + 'FilesComparison.compile_patterns'] = Contract(
+        CF + 'FilesComparison.compile_patterns', params=dict(ignore_patterns=None),
+        effects=lambda it, env: it.fresh_opaque('compiled_patterns'), result=T.none, assumed=True,
+        name='compile_patterns', spec_env=ENV)
+    return reg
+
+
+class _WrongContent(Contract):
+    def verify(self, registry=None, quick=False):
+        return Contract.verify(self, _with_compile_patterns(dict(REGISTRY if registry is None else registry)), quick)
+
+
+_WC_ENV = dict(ENV, n_excused=n_excused, patterns_equiv=patterns_equiv, any_substring_in=any_substring_in)
+_wc = _WrongContent(
+    CF + 'FilesComparison.wrong_content', props=['C04'], name='wrong_content[count]',
+    params=OrderedDict([('diffs', T.list(T.int)), ('actual', T.list(T.str)), ('expected', T.list(T.str)),
+                        ('actual_ignored', None), ('expected_ignored', None), ('actual_map', None),
+                        ('expected_map', None), ('failure_cases', None), ('max_permutation_cases', T.nat),
+                        ('ignore_substrings', T.opt(T.list(T.str))), ('ignore_patterns', T.none)]),
+    self_view=files_view, on_entry=_wc_entry, spec_env=_WC_ENV,
+    requires=[('line-numbers-within-both-texts',
+               'forall_int(0, len(diffs), lambda j: 0 <= diffs[j] and diffs[j] < len(actual) '
+               'and diffs[j] < len(expected))')],
+    loops={1: LoopSpec([('count-is-the-differing-pairs-less-the-excused-ones-so-far',
+                         'ndiffs == len(diffs) - n_excused(diffs, actual, expected, ignore_substrings, _i)')],
+                       havoc={'ndiffs': T.int, 'first_error_line': T.union(T.none, T.int)})},
+    ensures=[('count-is-the-number-of-unexcused-differing-pairs',
+              'result[1] == len(diffs) - n_excused(diffs, actual, expected, ignore_substrings, len(diffs))')])
+REGISTRY[_wc.ident + '#count'] = _wc
+
+
+# ---------------------------------------------------------------------------
+# check_strings (C04): the verdict, for texts of up to N lines a side (N = 3 thorough, 2 quick) whose line
+# contents, the ignore-substrings, the remove-substrings and the permutation allowance are all symbolic.
+# normalize_function and wrong_content are executed as part of the body (inlined); can_ignore, wrong_number and
+# check_for_permutation_failures are used through their verified contracts; check_patterns stays the uninterpreted
+# predicate of those contracts.  The right-hand side is the property's sentence: two clauses, "must pass" and
+# "must fail", which leave open exactly what the sentence leaves open (whether rearranged lines are compared
+# before or after stripping).
+# ---------------------------------------------------------------------------
+import os as _os
+from pyvc.sym import slen
+
+
+def _thorough():
+    return _os.environ.get('VERIF_TIER', 'quick') != 'quick'
+
+
+def _wide(shape):
+    # the wider option space (absent / empty / longer option lists) is explored for shapes up to 2 x 2, thorough tier
+    return _thorough() and max(shape) <= 2
+
+
+def _cs_max_lines():
+    return 3 if _thorough() else 2
+
+
+def _lines(it, name):
+    if getattr(it.target, 'preprocessed', False):
+        # a longer text goes in; the caller's preprocess function turns it into the lines of this view's shape
+        # (an arbitrary function of the text: its results are fresh lines)
+        k = it.target.shape[0 if name == 'actual' else 1]
+        raw = [it.fresh_str('raw_%s%d' % (name, i)) for i in range(k + 1)]
+        it.ghost.setdefault('preprocessed', []).append((raw, [it.fresh_str('preprocessed_%s%d' % (name, i))
+                                                                for i in range(k)]))
+        return raw
+    k = it.target.shape[0 if name == 'actual' else 1]
+    return [it.fresh_str('%s%d' % (name, i)) for i in range(k)]
+
+
+def _preprocess(it, name):
+    def fn(it2, lines):
+        for raw, out in it2.ghost.get('preprocessed', []):
+            if raw is lines:
+                return list(out)
+        raise Unsupported('preprocess applied to something other than the two texts')
+    return Builtin(fn, 'preprocess')
+
+
+def _effective(it, lines):
+    for raw, out in it.ghost.get('preprocessed', []):
+        if raw is lines:
+            return out
+    return lines
+
+
+def _removers(it, name):
+    # absent, or a list of 0..2 remove-substrings (quick: absent or one)
+    sizes = (None, 0, 1, 2) if _wide(it.target.shape) else (None, 1)
+    k = sizes[it.path.choose([True] * len(sizes))]
+    if k is None:
+        return None
+    return [it.fresh_str('%s%d' % (name, i)) for i in range(k)]
+
+
+def _norm_z(it, s, lstrip, rstrip):
+    z = strz(it, s)
+    both = z3.Function('str.strip', StrS, StrS)(z)
+    left = z3.Function('str.lstrip', StrS, StrS)(z)
+    right = z3.Function('str.rstrip', StrS, StrS)(z)
+    lz = lstrip.z if isinstance(lstrip, SBool) else z3.BoolVal(bool(lstrip))
+    rz = rstrip.z if isinstance(rstrip, SBool) else z3.BoolVal(bool(rstrip))
+    return z3.If(z3.And(lz, rz), both, z3.If(lz, left, z3.If(rz, right, z)))
+
+
+def _same_multiset_z(xs, ys):
+    n = len(xs)
+    if n == 0:
+        return z3.BoolVal(True)
+    return z3.Or(*[z3.And(*[xs[i] == ys[p[i]] for i in range(n)]) for p in _it.permutations(range(n))])
+
+
+def _kept_configs(it, lines, rem):
+    """[(condition, kept lines)]: trailing empty line dropped, then lines holding a remove-substring dropped."""
+    from pyvc.sym import str_contains
+    out = []
+    if lines:
+        last_empty = slen(strz(it, lines[-1])) == 0
+        bases = [(last_empty, lines[:-1]), (z3.Not(last_empty), lines)]
+    else:
+        bases = [(z3.BoolVal(True), [])]
+    has = {id(l): (z3.Or(*[str_contains(strz(it, l), strz(it, r)) for r in rem]) if rem else None) for l in lines}
+    for c0, base in bases:
+        if not rem:
+            out.append((c0, list(base)))
+            continue
+        for mask in _it.product((False, True), repeat=len(base)):
+            conds, kept = [c0], []
+            for gone, l in zip(mask, base):
+                conds.append(has[id(l)] if gone else z3.Not(has[id(l)]))
+                if not gone:
+                    kept.append(l)
+            out.append((z3.And(*conds), kept))
+    return out
+
+
+def _cs_verdicts(it, actual, expected, lstrip, rstrip, subs, rem, maxperm):
+    memo = it.path.__dict__.setdefault('cs_verdicts', {})
+    key = (id(actual), id(expected), id(subs), id(rem))
+    if key in memo:
+        return memo[key]
+    mz = maxperm.z if isinstance(maxperm, SInt) else z3.IntVal(int(maxperm))
+    must_pass, must_fail = [], []
+    norm = {}
+
+    def nz(l):
+        if id(l) not in norm:
+            norm[id(l)] = _norm_z(it, l, lstrip, rstrip)
+        return norm[id(l)]
+    unexcused = {}
+
+    def uz(a, e):
+        if (id(a), id(e)) not in unexcused:
+            unexcused[(id(a), id(e))] = z3.And(nz(a) != nz(e), z3.Not(_excused_z(it, a, e, subs)))
+        return unexcused[(id(a), id(e))]
+    configs_e = _kept_configs(it, list(_effective(it, expected)), rem)
+    for ca, A in _kept_configs(it, list(_effective(it, actual)), rem):
+        for ce, E in configs_e:
+            if len(A) != len(E):
+                must_fail.append(z3.And(ca, ce))
+                continue
+            n = len(A)
+            u = [uz(a, e) for a, e in zip(A, E)]
+            # which lines carry unexcused differences: every subset
+            alts_pass, alts_fail = [], []
+            for mask in _it.product((False, True), repeat=n):
+                sel = [u[i] if mask[i] else z3.Not(u[i]) for i in range(n)]
+                bad = [i for i in range(n) if mask[i]]
+                if not bad:
+                    alts_pass.append(z3.And(*sel) if sel else z3.BoolVal(True))
+                    continue
+                raw = _same_multiset_z([strz(it, A[i]) for i in bad], [strz(it, E[i]) for i in bad])
+                nrm = _same_multiset_z([nz(A[i]) for i in bad], [nz(E[i]) for i in bad])
+                within = mz >= len(bad)
+                alts_pass.append(z3.And(*(sel + [within, raw, nrm])))
+                alts_fail.append(z3.And(*(sel + [z3.Or(z3.Not(within), z3.And(z3.Not(raw), z3.Not(nrm)))])))
+            must_pass.append(z3.And(ca, ce, z3.Or(*alts_pass)))
+            if alts_fail:
+                must_fail.append(z3.And(ca, ce, z3.Or(*alts_fail)))
+    memo[key] = (z3.Or(*must_pass), z3.Or(*must_fail) if must_fail else z3.BoolVal(False))
+    return memo[key]
+
+
+@specfn
+def texts_must_pass(it, actual, expected, lstrip, rstrip, subs, rem, maxperm):
+    return SBool(_cs_verdicts(it, actual, expected, lstrip, rstrip, subs, rem, maxperm)[0])
+
+
+@specfn
+def texts_must_fail(it, actual, expected, lstrip, rstrip, subs, rem, maxperm):
+    return SBool(_cs_verdicts(it, actual, expected, lstrip, rstrip, subs, rem, maxperm)[1])
+
+
+@specfn
+def failures_reported(it):
+    return bool(it.ghost.get('add_failures'))
+
+
+def _cs_entry(it, senv):
+    diffs = SObj('Diffs', {'__open__': True}, label='msgs')
+    diffs.methods['add_reconstruction'] = Builtin(lambda it2, self, r: None, 'Diffs.add_reconstruction')
+    it.spec_env['Diffs'] = Builtin(lambda it2: diffs)
+    it.spec_env['FailureDiffs'] = Builtin(lambda it2, failures=None, diffs=None:
+                                          SObj('FailureDiffs', {'failures': failures, 'diffs': diffs,
+                                                                '__open__': False}))
+
+
+class _CheckStrings(Contract):
+    def verify(self, registry=None, quick=False):
+        reg = _with_compile_patterns(dict(REGISTRY if registry is None else registry))
+        reg[CF + 'FilesComparison.reconstruct'] = Contract(
+            CF + 'FilesComparison.reconstruct', params={}, effects=lambda it, env: _recon(it, 'reconstruction'),
+            result=T.none, assumed=True, name='reconstruct', spec_env=ENV,
+            trusted_note='reconstruct builds the annotated listing for the failure report; it does not change its '
+                         'arguments')
+        reg[CF + 'FilesComparison.reconstruct'].varargs_ok = True
+        af = Contract(CF + 'FilesComparison.add_failures', params={},
+                      effects=lambda it, env: it.ghost.__setitem__('add_failures', True), result=T.none, assumed=True,
+                      name='add_failures(report)', spec_env=ENV,
+                      trusted_note='add_failures only reports (messages, temporary files: verified under C15); '
+                                   'the verdict does not depend on it')
+        af.varargs_ok = True
+        reg[CF + 'FilesComparison.add_failures'] = af
+        return Contract.verify(self, reg, quick)
+
+
+def _cs_contract(la, le, preprocessed=False):
+    key = '%dx%d%s' % (la, le, '-preprocessed' if preprocessed else '')
+    c = _CheckStrings(
+        CF + 'FilesComparison.check_strings', props=['C04', 'C15'], name='check_strings[%s]' % key,
+        params=OrderedDict([('actual', T.custom(_lines)), ('expected', T.custom(_lines)),
+                            # expected_path and ignore_patterns only flow to assumed callees (get_encoding,
+                            # compile_patterns, add_failures); an absent ignore_substrings behaves as the empty list
+                            # in can_ignore's contract (quick: the list only)
+                            ('actual_path', T.opt(T.str)), ('expected_path', T.const(None)),
+                            ('lstrip', T.bool), ('rstrip', T.bool),
+                            ('ignore_substrings', T.opt(T.list(T.str)) if _wide((la, le)) else T.list(T.str)),
+                            ('ignore_patterns', T.custom(lambda it, n: it.fresh_opaque('ignore_patterns'))),
+                            ('remove_lines', T.custom(_removers)),
+                            ('preprocess', T.custom(_preprocess) if preprocessed else T.const(None)),
+                            ('max_permutation_cases', T.nat), ('create_temporaries', T.bool),
+                            ('msgs', T.const(None)), ('encoding', T.const(None))]),
+        self_view=_perm_view, on_entry=_cs_entry,
+        inline=[CF + 'FilesComparison.normalize_function', CF + 'FilesComparison.wrong_content'],
+        spec_env=dict(ENV, texts_must_pass=texts_must_pass, texts_must_fail=texts_must_fail,
+                      failures_reported=failures_reported),
+        ensures=[('passes-when-the-texts-agree-modulo-the-declared-exclusions',
+                  'implies(texts_must_pass(actual, expected, lstrip, rstrip, ignore_substrings, remove_lines, '
+                  'max_permutation_cases), result.failures == 0)'),
+                 ('fails-on-any-difference-no-option-excuses',
+                  'implies(texts_must_fail(actual, expected, lstrip, rstrip, ignore_substrings, remove_lines, '
+                  'max_permutation_cases), result.failures == 1)'),
+                 ('failures-is-0-or-1', 'result.failures == 0 or result.failures == 1'),
+                 ('a-passing-comparison-reports-and-writes-nothing',
+                  'result.failures != 0 or not failures_reported()'),
+                 ('a-failing-comparison-is-reported', 'result.failures == 0 or failures_reported()')],
+        max_paths=400000)
+    c.shape = (la, le)
+    c.preprocessed = preprocessed
+    # C15 ("passing ones leave none" / failing ones are reported) reads two of the views; C04 reads them all
+    c.props = ['C04', 'C15'] if (not preprocessed and la == le and la in (1, 2)) else ['C04']
+    c.abstraction = ('texts of exactly %d actual and %d reference lines (one view per shape up to N x N, N = 2 quick, '
+                     '3 thorough) with symbolic line contents' % (la, le)
+                     + ('' if not preprocessed else ', produced by a caller-supplied preprocess function (uninterpreted) from '
+                        'texts one line longer')
+                     + '; the pattern rule is the uninterpreted predicate of can_ignore\'s contract; reconstruct and '
+                       'add_failures are assumed to only report; wrong_number\'s additions to the ignored-line sets '
+                       'are not modelled (they feed the report only)')
+    REGISTRY[c.ident + '#' + key] = c
+    return c
+
+
+for _la in range(_cs_max_lines() + 1):
+    for _le in range(_cs_max_lines() + 1):
+        _cs_contract(_la, _le)
+        if _thorough() or (_la, _le) in ((1, 1), (2, 1), (0, 1)):
+            _cs_contract(_la, _le, preprocessed=True)
